@@ -404,10 +404,15 @@ class kFlowDecomp(pathmodel.AbstractPathModelDAG):
                     return False
         
         if len(paths) <= self.k:
+            # The greedy weights are bottleneck flow values, which have the type of the input data.
+            # We return them with the requested weight type (and give up on greedy if that would change their value).
+            if any(self.weight_type(weight) != weight for weight in weights):
+                return False
+            weights = [self.weight_type(weight) for weight in weights]
             # If paths contains strictly less than self.k paths, 
             # then we add arbitrary paths (i.e. we repeat the first path) with 0 weights to reach self.k paths.
             paths += [paths[0] for _ in range(self.k - len(paths))]
-            weights += [0 for _ in range(self.k - len(weights))]
+            weights += [self.weight_type(0) for _ in range(self.k - len(weights))]
             # self._solution = {
             #     "paths": paths,
             #     "weights": weights,
@@ -421,7 +426,7 @@ class kFlowDecomp(pathmodel.AbstractPathModelDAG):
                 self._solution = {
                     "_paths_internal": paths,
                     "paths": self.G_internal.get_condensed_paths(paths),
-                    "weights": self.path_weights_sol,
+                    "weights": weights,
                 }
             self.set_solved()
             self.solve_statistics = {}
